@@ -51,7 +51,7 @@ def lump(rng, labs, nmacro, macrolabs):
     return {a: macrolabs[assign[i]] for i, a in enumerate(labs)}
 
 
-def gen(rng, tier):
+def _gen0(rng, tier):
     N = G.budget(140) if tier == 'quick' else 3000
     kmax = 7 if tier == 'quick' else 8
     for _ in range(N):
@@ -128,6 +128,17 @@ def gen(rng, tier):
         yield 'EXHAUSTIVE'
 
 
+def gen(rng, tier):
+    for case in _gen0(rng, tier):
+        if isinstance(case, dict) and case.get('style') != 'enum':
+            r = rng.random()
+            if r < 0.25:
+                case['prelags'] = [rng.choice([1, 2, 3, 4, 5, 7]) for _ in range(rng.randint(1, 3))]
+            elif r < 0.35:
+                case['scribble'] = True
+        yield case
+
+
 def corpus():
     micro = [[0, 2, 1, 3, 1, 1, 3, 0, 1, 3, 3, 3]]
     return [
@@ -145,6 +156,20 @@ def impl(case):
     macro = [np.array(t) for t in case['macro']]
     micro = [np.array(t) for t in case['micro']]
     lt = mh.LumpedStateTraj(macro, micro, positive=case['pos'])
+    # history on the SAME object: estimates at other lag times first (whatever they answer), and the
+    # caller overwrites arrays the object handed out; the estimate at the requested lag must not care
+    for other in case.get('prelags') or []:
+        try:
+            lt.estimate_markov_model(other)
+        except Exception:  # noqa
+            pass
+    if case.get('scribble'):
+        for name in ('state_assignment', 'states', 'microstates'):
+            try:
+                a = getattr(lt, name)
+                a[...] = a[::-1].copy()
+            except Exception:  # noqa
+                pass
     T, st = lt.estimate_markov_model(case['lag'])
     return {'T': canon(T), 'st': canon(st)}
 
